@@ -47,6 +47,11 @@ def pred_c04(prog, case, outs, tables):
         if op.get("_steps") is None and op["op"] == "transcode":
             # malformed / mutated key: whatever it resolves to, the target must hold that node's key
             want, steps = ref_res(prog, op)
+            if want[0] == "err" and want[1] in (2, 3):
+                fd = SP.fail_depth(steps, op["tg"])
+                want2 = ("err", 1, fd, 0) if fd else want
+                if res_kind(o[0]) != want2:
+                    bad.append((j, "key does not denote a node (%s at depth %d); transcode reports %r" % (KIND[want[1]], want[2], o[0])))
             if want[0] == "ok" or (want[0] == "err" and want[1] == 1):
                 leaf = want[0] == "ok"
                 rend = SP.render(steps, op["tg"])
@@ -270,8 +275,16 @@ def pred_iter(prog, case, outs, tables, rooted):
         if exp is None or exp == "rooterr":
             continue
         if len(items) > op.get("max", 600):
+            if len(exp) + 3 <= op.get("max", 600):
+                bad.append((j, "iteration does not terminate: %d items yielded, the type has %d nodes to yield" % (len(items), len(exp))))
             continue
         got = [it for it in items if it != [2]]
+        if op.get("resolve"):
+            for it in got:
+                if it[0] == 0 and len(it) > 4 and it[4] != [] and it[4] != [0, [it[2], it[3]]]:
+                    bad.append((j, "yielded key %r (depth %d, leaf=%d) resolves to %r" % (it[1], it[2], it[3], it[4])))
+                    break
+            got = [it[:4] if it[0] == 0 else it for it in got]
         if PANIC in items:
             bad.append((j, "iteration panicked")); continue
         # fused: everything after the first None is None
@@ -322,7 +335,10 @@ def pred_c06(prog, case, outs, tables):
 
 def pred_c09(prog, case, outs, tables):
     bad = []
-    m = SP.metadata(prog.t)
+    m = dict(SP.metadata(prog.t))
+    for op, o in zip(case["ops"], outs):
+        if op["op"] == "meta" and o != PANIC:
+            m["bits"] = o[0][3]          # what the implementation's Metadata reports
     words = {}
     for j, (op, o) in enumerate(zip(case["ops"], outs)):
         if o == PANIC:
